@@ -29,12 +29,21 @@ Qed.
 (* ---------------------------------------------------------------------------------------- *)
 (* sort.SliceStable + break = filter                                                          *)
 (* ---------------------------------------------------------------------------------------- *)
-Definition le_next (a b : entry) : Prop := e_next a <= e_next b.
+Definition le_next (a b : entry) : Prop := next_leb (e_next a) (e_next b) = true.
+
+Lemma next_leb_total : forall a b, next_leb a b = false -> next_leb b a = true.
+Proof. intros [x|] [y|]; simpl; try discriminate; try reflexivity. intro H. apply Z.leb_gt in H. apply Z.leb_le. lia. Qed.
+
+Lemma next_leb_trans : forall a b c, next_leb a b = true -> next_leb b c = true -> next_leb a c = true.
+Proof.
+  intros [x|] [y|] [z|]; simpl; try discriminate; try reflexivity. intros H1 H2.
+  apply Z.leb_le in H1, H2. apply Z.leb_le. lia.
+Qed.
 
 Lemma insert_perm : forall e l, Permutation (insert_entry e l) (e :: l).
 Proof.
   intros e l. induction l as [|x l IH]; simpl; [apply Permutation_refl|].
-  destruct (e_next e <=? e_next x); [apply Permutation_refl|].
+  destruct (next_leb (e_next e) (e_next x)); [apply Permutation_refl|].
   eapply Permutation_trans; [apply perm_skip, IH | apply perm_swap].
 Qed.
 
@@ -48,19 +57,19 @@ Lemma insert_sorted : forall e l, StronglySorted le_next l -> StronglySorted le_
 Proof.
   intros e l H. induction H as [|x l Hs IH Hx]; simpl.
   - constructor; constructor.
-  - destruct (e_next e <=? e_next x) eqn:E.
-    + apply Z.leb_le in E. constructor; [constructor; assumption|].
-      constructor; [unfold le_next; lia|].
-      eapply Forall_impl; [|exact Hx]. intros a Ha. unfold le_next in *. lia.
-    + apply Z.leb_gt in E. constructor; [assumption|].
+  - destruct (next_leb (e_next e) (e_next x)) eqn:E.
+    + constructor; [constructor; assumption|].
+      constructor; [exact E|].
+      eapply Forall_impl; [|exact Hx]. intros a Ha. unfold le_next in *. eapply next_leb_trans; eassumption.
+    + constructor; [assumption|].
       eapply Permutation_Forall; [apply Permutation_sym, insert_perm|].
-      constructor; [unfold le_next; lia | assumption].
+      constructor; [unfold le_next; apply next_leb_total; assumption | assumption].
 Qed.
 
 Lemma sort_sorted : forall l, StronglySorted le_next (sort_entries l).
 Proof. induction l as [|e l IH]; simpl; [constructor | apply insert_sorted; assumption]. Qed.
 
-Definition due_entry (m : Z) (e : entry) : bool := e_next e <=? m.
+Definition due_entry (m : Z) (e : entry) : bool := match e_next e with Some n => n <=? m | None => false end.
 
 Lemma filter_nil : forall {A} (p : A -> bool) l, (forall x, In x l -> p x = false) -> filter p l = [].
 Proof.
@@ -71,11 +80,13 @@ Qed.
 Lemma take_due_sorted : forall m l, StronglySorted le_next l -> take_due m l = filter (due_entry m) l.
 Proof.
   intros m l H. induction H as [|x l Hs IH Hx]; simpl; [reflexivity|].
-  unfold due_entry at 1. destruct (m <? e_next x) eqn:E.
-  - apply Z.ltb_lt in E. replace (e_next x <=? m) with false by (symmetry; apply Z.leb_gt; lia).
+  unfold due_entry at 1. destruct (e_next x) as [n|] eqn:En; [|exact IH].
+  destruct (m <? n) eqn:E.
+  - apply Z.ltb_lt in E. replace (n <=? m) with false by (symmetry; apply Z.leb_gt; lia).
     symmetry. apply filter_nil. intros y Hy. rewrite Forall_forall in Hx. specialize (Hx y Hy).
-    unfold due_entry, le_next in *. apply Z.leb_gt. lia.
-  - apply Z.ltb_ge in E. replace (e_next x <=? m) with true by (symmetry; apply Z.leb_le; lia).
+    unfold due_entry, le_next in *. rewrite En in Hx. destruct (e_next y) as [n'|]; [|reflexivity].
+    simpl in Hx. apply Z.leb_le in Hx. apply Z.leb_gt. lia.
+  - apply Z.ltb_ge in E. replace (n <=? m) with true by (symmetry; apply Z.leb_le; lia).
     rewrite IH. reflexivity.
 Qed.
 
@@ -115,14 +126,16 @@ Definition start_guard (st : status) (n : Z) : bool :=
   negb (st_err st) && negb (st_run st) && match st_last st with Some l => l <? n | None => true end.
 Definition stop_guard (st : status) : bool := negb (st_err st) && st_run st.
 
+Definition next_or_zero (n : option Z) : Z := match n with Some n => n | None => zero_minute end.
+
 Lemma invoke_start : forall s n f, invoke s {| e_next := n; e_kind := KStart; e_file := f |} =
-  if start_guard (status_of s f) n then [CStart f] else [].
+  if start_guard (status_of s f) (next_or_zero n) then [CStart f] else [].
 Proof.
-  intros. unfold invoke, start_guard. simpl. destruct (st_err _); simpl; [reflexivity|].
+  intros. unfold invoke, start_guard, next_or_zero. simpl. set (n' := match n with Some n0 => n0 | None => zero_minute end). destruct (st_err _); simpl; [reflexivity|].
   destruct (st_run _); simpl; [reflexivity|]. destruct (st_last _) as [l|]; [|reflexivity].
-  destruct (n <=? l) eqn:E.
-  - apply Z.leb_le in E. replace (l <? n) with false by (symmetry; apply Z.ltb_ge; lia). reflexivity.
-  - apply Z.leb_gt in E. replace (l <? n) with true by (symmetry; apply Z.ltb_lt; lia). reflexivity.
+  destruct (n' <=? l) eqn:E.
+  - apply Z.leb_le in E. replace (l <? n') with false by (symmetry; apply Z.ltb_ge; lia). reflexivity.
+  - apply Z.leb_gt in E. replace (l <? n') with true by (symmetry; apply Z.ltb_lt; lia). reflexivity.
 Qed.
 
 Lemma invoke_stop : forall s n f, invoke s {| e_next := n; e_kind := KStop; e_file := f |} =
@@ -134,10 +147,10 @@ Proof. reflexivity. Qed.
 
 (* the calls produced by the entries of one kind of one file *)
 Definition kind_calls (s : state) (m : Z) (k : skind) (f : string) (sps : list spec) : list call :=
-  flat_map (invoke s) (filter (due_entry m) (map (fun sp => {| e_next := next_time sp (60 * m - 1); e_kind := k; e_file := f |}) sps)).
+  flat_map (invoke s) (filter (due_entry m) (map (fun sp => {| e_next := next sp (60 * m - 1); e_kind := k; e_file := f |}) sps)).
 
 Definition start_pass (s : state) (m : Z) (f : string) (sp : spec) : bool :=
-  due sp m && start_guard (status_of s f) (next_time sp (60 * m - 1)).
+  due sp m && start_guard (status_of s f) (next_or_zero (next sp (60 * m - 1))).
 Definition stop_pass (s : state) (m : Z) (f : string) (sp : spec) : bool := due sp m && stop_guard (status_of s f).
 
 Lemma kind_calls_nil : forall s m k f, kind_calls s m k f [] = [].
@@ -145,10 +158,10 @@ Proof. reflexivity. Qed.
 
 Lemma kind_calls_cons : forall s m k f sp sps,
   kind_calls s m k f (sp :: sps) =
-  (if due sp m then invoke s {| e_next := next_time sp (60 * m - 1); e_kind := k; e_file := f |} else []) ++ kind_calls s m k f sps.
+  (if due sp m then invoke s {| e_next := next sp (60 * m - 1); e_kind := k; e_file := f |} else []) ++ kind_calls s m k f sps.
 Proof.
   intros. unfold kind_calls. cbn [map filter]. unfold due_entry at 1. cbn [e_next]. unfold due.
-  destruct (next_time sp (60 * m - 1) <=? m); cbn [flat_map app]; reflexivity.
+  destruct (next sp (60 * m - 1)) as [n|]; [destruct (n <=? m)|]; cbn [flat_map app]; reflexivity.
 Qed.
 
 Lemma count_single : forall c d, count c [d] = if call_eq_dec c d then 1%nat else 0%nat.
@@ -167,7 +180,7 @@ Proof.
   - rewrite kind_calls_nil. destruct (call_eq_dec c (CStart f)); reflexivity.
   - rewrite kind_calls_cons, count_app, IH, invoke_start. cbn [filter]. unfold start_pass at 2.
     destruct (due sp m); cbn [andb]; [|rewrite count_nil; reflexivity].
-    destruct (start_guard (status_of s f) (next_time sp (60 * m - 1))).
+    destruct (start_guard (status_of s f) (next_or_zero (next sp (60 * m - 1)))).
     + rewrite count_single. destruct (call_eq_dec c (CStart f)); reflexivity.
     + rewrite count_nil. reflexivity.
 Qed.
